@@ -1,10 +1,12 @@
 #!/bin/bash
-# import /tmp/seeded_<id>/mN.{diff,json} + mN_demo/ into /verif/seeded/<id>/mN/{patch.diff,meta.json,demo/}
+# import <srcdir>/mN.{diff,json} + mN_demo/ into /verif/seeded/<id>/m<N+offset>/{patch.diff,meta.json,demo/}
+# usage: seeded_import.sh <Cnn> [srcdir=/tmp/seeded_<Cnn>] [offset=0]
 id=$1
+src=${2:-/tmp/seeded_$id}
+off=${3:-0}
 for n in 1 2 3 4 5; do
-  src=/tmp/seeded_$id
   [ -s $src/m$n.diff ] || continue
-  d=/verif/seeded/$id/m$n
+  d=/verif/seeded/$id/m$((n+off))
   mkdir -p $d
   cp $src/m$n.diff $d/patch.diff
   [ -f $src/m$n.json ] && cp $src/m$n.json $d/meta.json || echo '{}' > $d/meta.json
